@@ -698,7 +698,15 @@ def run(project: Project, rep, tier: str):
     if not bad:
         rep.discharged("AR-DEFAULT", None, None, f"{n_keys} grid parameters of the landscape tools use None as the 'not given' "
                                                  f"marker; none is truth-tested", nontrivial=False)
-    for rn, n in (("AR-EFFECT", 30), ("AR-OWN", 30), ("AR-LAZY", 4), ("AR-GUARD", 9), ("AR-UNARY", 11), ("AR-PAD", 4), ("AR-SNAP", 2), ("AR-LC", 1), ("AR-MERGE", 1)):
+    # AR-DTYPE: re-sampled / combined values are floating-point results (np.interp, scaled sums); a buffer that takes its
+    # dtype from an operand's `values` truncates them when that operand was given integer values
+    from . import dtype_rule
+    fns = [fi_ for q_, fi_ in sorted(project.functions.items())
+           if q_.startswith(("persim.landscapes.tools.", "persim.landscapes.approximate.", "persim.landscapes.auxiliary."))
+           and isinstance(fi_.node, (ast.FunctionDef, ast.AsyncFunctionDef))]
+    if fns:
+        dtype_rule.run_on(project, rep, "AR-DTYPE", fns)
+    for rn, n in (("AR-EFFECT", 30), ("AR-OWN", 30), ("AR-LAZY", 4), ("AR-GUARD", 9), ("AR-UNARY", 11), ("AR-PAD", 4), ("AR-SNAP", 2), ("AR-LC", 1), ("AR-MERGE", 1), ("AR-DTYPE", 1)):
         rep.floor(rn, n)
     for t in ("numpy.pad", "numpy.interp", "itertools.zip_longest"):
         rep.trust(t)
